@@ -40,6 +40,13 @@ pub fn alphabet() -> Vec<Req> {
         r("get-long", long_query, "buffer"),
         r("malformed-version", b"GET /e HTTP/1.0\r\nHost: h\r\n\r\n".to_vec(), "malformed"),
         r("put-short", b"PUT /e HTTP/1.1\r\n\r\n".to_vec(), "plain"),
+        // requests that are refused *after* parts of them were stored (query, header lines): what they leave behind must not
+        // reach later requests either
+        r("refused-transfer-encoding", b"POST /e?stale=te HTTP/1.1\r\nHost: refused\r\nX-Stale: 1\r\nTransfer-Encoding: chunked\r\n\r\n".to_vec(), "refused"),
+        r("refused-content-length", b"POST /e HTTP/1.1\r\nHost: refused\r\nUser-Agent: stale-ua\r\nContent-Length: 5x\r\n\r\n".to_vec(), "refused"),
+        r("refused-version-after-query", b"GET /e?stale=version HTTP/1.0\r\nHost: h\r\n\r\n".to_vec(), "refused"),
+        // no query of its own, but `=` inside the bytes that a stale query slice of a longer predecessor would cover
+        r("get-cookie-no-query", b"GET /e HTTP/1.1\r\nHost: h\r\nCookie: z=1\r\n\r\n".to_vec(), "header"),
     ];
     v.push(Req { name: "get-close", bytes: b"GET /e HTTP/1.1\r\nHost: h\r\nConnection: close\r\n\r\n".to_vec(), head: false, closes: true, kind: "close" });
     v
@@ -101,6 +108,33 @@ pub fn check_history(ctx: &mut Ctx, router: &ohkami::__verif__::VerifRouter, alp
     }
 }
 
+/// The oracle applied to the real `Session::manage` over loopback TCP.  Returns true if a violation was reported.
+pub fn check_history_tcp(ctx: &mut Ctx, router: &ohkami::__verif__::VerifRouter, tcp: &wire::TcpBinding, alpha: &[Req], fresh: &[Vec<u8>], hist: &[usize]) -> bool {
+    let segments: Vec<Vec<u8>> = hist.iter().map(|&i| alpha[i].bytes.clone()).collect();
+    let real = match tcp.run(router, &segments) { Ok(r) => r, Err(e) => { ctx.machinery_error(format!("tcp run failed: {e}")); return true } };
+    let mut expected: Vec<&Vec<u8>> = vec![];
+    let mut closed_at = None;
+    for (k, &i) in hist.iter().enumerate() { expected.push(&fresh[i]); if alpha[i].closes { closed_at = Some(k); break } }
+    let heads: Vec<bool> = hist.iter().map(|&i| alpha[i].head).collect();
+    let (got, leftover) = wire::split_responses(&real.written, &heads);
+    let names: Vec<&str> = hist.iter().map(|&i| alpha[i].name).collect();
+    let k = (0..expected.len().max(got.len())).find(|&k| expected.get(k).map(|e| e.as_slice()) != got.get(k).map(|g| g.as_slice()));
+    let end_ok = real.server_closed_first == closed_at.is_some();
+    if k.is_none() && leftover.is_empty() && end_ok { return false }
+    let k = k.unwrap_or(got.len().min(hist.len() - 1));
+    let prev = if k == 0 { "first" } else { alpha[hist[(k - 1).min(hist.len() - 1)]].kind };
+    let cur = alpha[hist[k.min(hist.len() - 1)]].kind;
+    let symptom = match (expected.get(k), got.get(k)) {
+        (Some(e), Some(g)) => if wire::status_of(e) != wire::status_of(g) { "response-status" } else { "response-differs" },
+        (Some(_), None) => "missing-response", (None, Some(_)) => "extra-response",
+        (None, None) => if !end_ok { "close-behaviour" } else { "malformed-response" },
+    };
+    ctx.transitions += hist.len() as u64;
+    ctx.violation(&format!("C05/tcp/{prev}>{cur}/{symptom}"), true, || json!({"history": names, "transport": "tcp", "at_request": k,
+        "expected": expected.get(k).map(|e| esc(&e[..e.len().min(300)])), "observed": got.get(k).map(|e| esc(&e[..e.len().min(300)])), "server_closed_first": real.server_closed_first}));
+    true
+}
+
 fn find(hay: &[u8], needle: &[u8]) -> bool { hay.windows(needle.len()).any(|w| w == needle) }
 
 fn fresh_responses(router: &ohkami::__verif__::VerifRouter, alpha: &[Req]) -> Vec<Vec<u8>> {
@@ -125,9 +159,16 @@ pub fn run(ctx: &mut Ctx) {
     let tcp = wire::TcpBinding::new();
     let mut hists: Vec<Vec<usize>> = vec![];
     for len in 1..=conform_len { let total = n.pow(len as u32); for mut code in 0..total { let mut h = vec![]; for _ in 0..len { h.push(code % n); code /= n; } hists.push(h); } }
+    // The real session is judged by the property's own oracle first (its responses against fresh *real* connections);
+    // only a real session that satisfies the oracle is then compared with the model - so a defect in the real loop is a
+    // VIOLATION, and only a harness/model discrepancy is a machinery failure.
+    let tcp_fresh: Vec<Vec<u8>> = alpha.iter().map(|r| tcp.run(&router, &[r.bytes.clone()]).map(|o| o.written).unwrap_or_default()).collect();
+    for (i, r) in alpha.iter().enumerate() { if tcp_fresh[i] != fresh[i] { ctx.machinery_error(format!("fresh response of `{}` differs between the model and the real session", r.name)); } }
+    if !ctx.machinery_errors.is_empty() { return }
     for h in &hists {
         if h.len() == 3 && (h[0] + 2 * h[1] + 3 * h[2]) % 5 != 0 { continue } // thorough: one fifth of the length-3 histories
         if !ctx.mine() { continue }
+        if check_history_tcp(ctx, &router, &tcp, &alpha, &tcp_fresh, h) { continue }
         let segments: Vec<Vec<u8>> = h.iter().map(|&i| alpha[i].bytes.clone()).collect();
         match wire::conform(&router, &tcp, &segments) {
             Ok(()) => ctx.traces_validated += 1,
@@ -164,5 +205,11 @@ pub fn replay(ctx: &mut Ctx, case: &Value) {
     let alpha = alphabet();
     let fresh = fresh_responses(&router, &alpha);
     let hist: Vec<usize> = case["history"].as_array().expect("history").iter().map(|n| alpha.iter().position(|r| r.name == n.as_str().unwrap()).expect("unknown request")).collect();
+    if case["transport"].as_str() == Some("tcp") {
+        let tcp = wire::TcpBinding::new();
+        let tcp_fresh: Vec<Vec<u8>> = alpha.iter().map(|r| tcp.run(&router, &[r.bytes.clone()]).map(|o| o.written).unwrap_or_default()).collect();
+        if !check_history_tcp(ctx, &router, &tcp, &alpha, &tcp_fresh, &hist) { ctx.pass("tcp-replay-ok", true, true) }
+        return
+    }
     check_history(ctx, &router, &alpha, &fresh, &hist);
 }
